@@ -64,6 +64,29 @@ Eff(c) == LET e == EffIn(c, BMin, BMax)
 EffSize(c) == LET e == EffIn(c, BI(0), BMax)
               IN IF e.has THEN e ELSE [has |-> FALSE, lb |-> BI(0), ub |-> BMax, ext |-> FALSE]
 
+\* OER-visible constraint (X.696 8.2): an extensible constraint is not OER-visible
+\* (an extensible element set is not visible; in a serial application T(a)(b) the visible parts are
+\* intersected: an invisible b leaves a, an invisible a leaves b relative to the unconstrained parent)
+RECURSIVE OerEffIn(_, _, _)
+OerEffIn(c, plo, phi) ==
+  CASE c.op = "ext" -> [has |-> FALSE, lb |-> plo, ub |-> phi, ext |-> FALSE]
+    [] c.op = "serial" -> LET x == OerEffIn(c.a, plo, phi)
+                              pa == EffIn(c.a, plo, phi)           \* MIN / MAX in b denote the parent's bounds, visible or not
+                              y == OerEffIn(c.b, pa.lb, pa.ub)
+                          IN IF ~y.has THEN x
+                             ELSE IF ~x.has THEN y
+                             ELSE [has |-> TRUE, lb |-> LbMax(x.lb, y.lb), ub |-> UbMin(x.ub, y.ub), ext |-> FALSE]
+    [] c.op \in {"union", "inter"} ->
+         LET x == OerEffIn(c.a, plo, phi) y == OerEffIn(c.b, plo, phi)
+         IN IF c.op = "union"
+            THEN (IF x.has /\ y.has THEN [has |-> TRUE, lb |-> LbMin(x.lb, y.lb), ub |-> UbMax(x.ub, y.ub), ext |-> FALSE]
+                  ELSE [has |-> FALSE, lb |-> plo, ub |-> phi, ext |-> FALSE])
+            ELSE (IF x.has /\ y.has THEN [has |-> TRUE, lb |-> LbMax(x.lb, y.lb), ub |-> UbMin(x.ub, y.ub), ext |-> FALSE]
+                  ELSE IF x.has THEN x ELSE y)
+    [] c.op = "except" -> OerEffIn(c.a, plo, phi)
+    [] OTHER -> [EffIn(c, plo, phi) EXCEPT !.ext = FALSE]
+OerEff(c) == LET e == OerEffIn(c, BMin, BMax) IN IF e.has THEN e ELSE Unconstrained
+
 InRange(e, x) == /\ (e.lb.k = "MIN" \/ ILe(e.lb.v, x))
                  /\ (e.ub.k = "MAX" \/ ILe(x, e.ub.v))
 
@@ -110,13 +133,28 @@ SeqRange(s) == {s[i] : i \in DOMAIN s}
 EnvOf(mod) == [n \in {mod.defs[i].n : i \in DOMAIN mod.defs} |->
                  (CHOOSE d \in SeqRange(mod.defs) : d.n = n).t]
 
+\* a constrained reference  T ::= Base (constraint)  (subtype chains through type references, C09)
+TRefC(n, c) == [k |-> "REFC", n |-> n, c |-> c]
+IsRef(T) == T.k \in {"REF", "REFC"}
+\* serial application of c to the INTEGER value / SIZE constraint reached through references and tags
+RECURSIVE WithC(_, _)
+WithC(B, c) ==
+  CASE B.k = "INTEGER" -> [B EXCEPT !.c = IF @.op = "none" THEN c ELSE CSerial(@, c)]
+    [] B.k \in {"OCTETS", "BITS", "STRING", "SEQOF", "SETOF"} -> [B EXCEPT !.size = IF @.op = "none" THEN c ELSE CSerial(@, c)]
+    [] B.k = "REF" -> TRefC(B.n, c)
+    [] B.k = "REFC" -> [B EXCEPT !.c = CSerial(@, c)]
+    [] B.k = "TAGGED" -> [B EXCEPT !.t = WithC(@, c)]
+    [] OTHER -> B
+\* one step along a reference
+Follow(env, T) == IF T.k = "REF" THEN env[T.n] ELSE WithC(env[T.n], T.c)
+
 \* strip references and tags
 RECURSIVE Resolve(_, _)
-Resolve(env, T) == IF T.k = "REF" THEN Resolve(env, env[T.n])
+Resolve(env, T) == IF IsRef(T) THEN Resolve(env, Follow(env, T))
                    ELSE IF T.k = "TAGGED" THEN Resolve(env, T.t)
                    ELSE T
 RECURSIVE Deref(_, _)
-Deref(env, T) == IF T.k = "REF" THEN Deref(env, env[T.n]) ELSE T
+Deref(env, T) == IF IsRef(T) THEN Deref(env, Follow(env, T)) ELSE T
 
 AllComps(T) == T.comps \o T.adds
 CompNames(T) == {AllComps(T)[i].n : i \in DOMAIN AllComps(T)}
